@@ -228,3 +228,8 @@ mod test {
         assert!(cache.insert("t"));
     }
 }
+
+#[cfg(kani)]
+pub(crate) mod verif {
+    include!(concat!(env!("LIBP2P_VERIF"), "/hooks/gossipsub_time_cache.rs"));
+}
